@@ -6,6 +6,53 @@ from framework import ProbeCrashed
 STATUS = {0: "NOTFOUND", 1: "OK", 2: "WARN", 3: "ERR", 4: "STOP", 5: "STALL", 6: "REWIND"}
 
 
+def part_view(line):
+    """Per-partition (topic, partition, status, completeness bits) of the full view printed by the eval probe / driver."""
+    full = line.split(" || ")[0].split()
+    i = full.index("P")
+    n = int(full[i + 1])
+    ps = [full[i + 2 + 9 * k:i + 2 + 9 * k + 9] for k in range(n)]
+    return sorted((p[0], p[1], p[4], p[8]) for p in ps)
+
+
+def gate_stream(chk):
+    """evaluatePartitionStatus (nil-prefix slicing + completeness gate) through the real request channel: the partition
+    statuses are pinned by Eval.eval_partition (theorems C03_incomplete_is_ok / C03_gate), so a differing status is a
+    failing input of the property."""
+    n = 500 if not chk.thorough else 20000
+    groups, cases = [], []
+    for i in range(n):
+        g, tg = evalgen.gen_gate_group(chk.rng, i)
+        groups.append(g)
+        cases.append(evalgen.fmt_group(g))
+        for t in tg:
+            chk.count(t)
+    impl, model, _ = chk.differential("eval", "eval", "TestVerifProbeEval", cases, name="gate")
+    bad = []
+    for i, (g, c, a, b) in enumerate(zip(groups, cases, impl, model)):
+        try:
+            va, vb = part_view(a), part_view(b)
+        except Exception:
+            va, vb = a, b
+        sts = [int(x[2]) for x in va] if isinstance(va, list) else []
+        if any(s_ > 1 for s_ in sts):
+            chk.nontrivial.add(C.case_hash(c))
+        for s_ in sts:
+            chk.count("gate-status:" + STATUS.get(s_, "?"))
+        if va != vb:
+            bad.append((i, c, a, b))
+    if cases:
+        chk.sample({"case": cases[0], "impl": impl[0], "model": model[0]})
+    for (i, c, a, b) in bad[:3]:
+        chk.violation("gate_%d" % i, {"kind": "input", "probe": "evaluator/TestVerifProbeEval (EvaluatorRequest, storage reply supplied)",
+                                      "case": c, "impl_output": a, "model_output": b,
+                                      "broken": "corr:evaluator.evaluatePartitionStatus (slicing / completeness gate)",
+                                      "oracle_verdict": "a partition's status or completeness differs from the documented procedure "
+                                                        "(status = rules if Complete >= minimum-complete else OK)",
+                                      "cmd": "bin/check C03 --replay <this file>"})
+    return bad
+
+
 def run(chk, failed):
     n = 6000 if not chk.thorough else 200000
     cases, tags = [], []
@@ -38,10 +85,33 @@ def run(chk, failed):
                                       "broken": "corr:evaluator.calculatePartitionStatus",
                                       "oracle_verdict": "implementation differs from the documented procedure (Eval.calc_status = EvalSpec.spec_status)",
                                       "cmd": "bin/check C03 --replay <this file>"})
-    if failed and not mism:
+    gate_mism = gate_stream(chk)
+    if failed and not mism and not gate_mism:
         chk.violation("obligation", {"kind": "theorem", "broken": [n for n, _ in failed],
                                      "detail": [d for _, d in failed]}, found_input=False)
     chk.assumptions += [
         "calculatePartitionStatus is driven directly (symbol pinned by TestCachingEvaluator_CheckRules); the completeness gate and nil-prefix slicing are tied through the group cases of C04",
         "no-overflow guard of calc_status_spec: |timestamps| < 2^61, |timeNow| < 2^51 (outside it the model still mirrors Go's wrap-around and is compared, but the documented procedure is only claimed inside)",
     ]
+
+
+def replay(path):
+    import json
+    import framework
+    obj = json.load(open(path))
+    case = obj.get("case")
+    if not case:
+        print("replay file has no case (broken: %s)" % obj.get("broken"))
+        return 2
+    chk = framework.Check("C03", "quick", int(obj.get("seed", 1)))
+    C.build_coq()
+    impl, model, _ = chk.differential("eval", "eval", "TestVerifProbeEval", [case], name="replay")
+    print("case:  " + case)
+    print("impl:  " + impl[0])
+    print("model: " + model[0] + "   (= the documented procedure, theorem C03_calc_status_spec / gate theorems)")
+    if case.startswith("group"):
+        differs = part_view(impl[0]) != part_view(model[0])
+    else:
+        differs = impl[0] != model[0]
+    print("verdict: " + ("implementation differs from the documented procedure" if differs else "agrees"))
+    return 1 if differs else 0
